@@ -12,9 +12,24 @@ def unhex_list(t):
     return [] if t == "~" else [unhex(x) for x in t.split(",")]
 
 
+NCFG = 13  # configuration tokens on every cscript / cval / cmatch / crl line
+
+
+def driver_flags():
+    """command-line flags telling the drivers which variant of the code the model has to follow"""
+    from lib.machine import code_flags
+    f = code_flags()
+    out = []
+    if f.get("ingress_segment_prefix"):
+        out.append("-seg-prefix")
+    if f.get("ratelimit_ceil"):
+        out.append("-rl-ceil")
+    return out
+
+
 class Cfg:
     def __init__(self, toks):
-        (sec, ss, pre, ing, sso, dom, nm, leg, rl, logins, win) = toks
+        (sec, ss, pre, ing, sso, dom, nm, leg, rl, logins, win, seg, ceil) = toks
         self.secure = sec == "1"
         self.samesite = unhex(ss)
         self.prefix = unhex(pre)
@@ -26,6 +41,9 @@ class Cfg:
         self.rl = rl == "1"
         self.logins = int(logins)
         self.window = int(win)
+        # variants of the code under test (lib/code_flags.json), carried along for the model only
+        self.seg_prefix = seg == "1"
+        self.rl_ceil = ceil == "1"
 
     # names as documented: <prefix>.session etc.; in SSO mode the configured session cookie name
     def name(self, kind):
@@ -53,13 +71,14 @@ class Script:
     def __init__(self, line):
         t = line.split()
         assert t[0] == "cscript"
-        self.cfg = Cfg(t[1:12])
-        self.https = t[12] == "1"
-        self.host = unhex(t[13])
-        self.hostport = unhex(t[14])
-        self.now0 = int(t[15])
-        np_ = int(t[16])
-        k = 17
+        self.cfg = Cfg(t[1:1 + NCFG])
+        o = 1 + NCFG
+        self.https = t[o] == "1"
+        self.host = unhex(t[o + 1])
+        self.hostport = unhex(t[o + 2])
+        self.now0 = int(t[o + 3])
+        np_ = int(t[o + 4])
+        k = o + 5
         self.probes = []
         for _ in range(np_):
             self.probes.append((t[k] == "1", unhex(t[k + 1]), unhex(t[k + 2])))
